@@ -72,6 +72,12 @@ template <class T> static void behaves_like(T &obj, const char *cls, const char 
         if (ok || bp.size() != 0) { hx_fail(kb, "decrypt(byte_array) of a forged packet returned %d with %zu output bytes (must be false and empty)", (int)ok, bp.size()); return; }
         ascon::byte_array shortc(9, 0); bp = ascon::byte_array(7, 0x11);
         if (obj.decrypt(bp, shortc) || bp.size() != 0) { hx_fail(kb, "decrypt(byte_array) of a packet shorter than the tag must fail with an empty result"); return; }
+        /* every length below the tag size, through both overloads, with and without associated data: false, empty output, no exception (the C function returns -1) */
+        for (size_t sl = 0; sl < 16; sl++) for (int form = 0; form < 3; form++) {
+            ascon::byte_array sc = mk_ba(exp, sl), so(4, 0x22), noad; bool r = true, threw = false;
+            try { r = form == 0 ? obj.decrypt(so, sc) : form == 1 ? obj.decrypt(so, sc, noad) : obj.decrypt(so, sc, bad); } catch (...) { threw = true; }
+            if (threw || r || so.size() != 0) { hx_fail(kb, "decrypt(byte_array%s) of a %zu-byte packet: %s (must return false with an empty array)", form ? ", ad" : "", sl, threw ? "a C++ exception left the call" : r ? "returned true" : "output not empty"); return; }
+        }
         if (obj.decrypt(pt, exp, 9, 0, 0) >= 0) { hx_fail(kb, "decrypt(ptr) of a packet shorter than the tag must fail"); return; }
         {   /* a shorter packet into the same output arrays, then the kept copies */
             unsigned char exp0[96]; c_encrypt(fam, alg, key, NONCE, ADB, 0, MSG, ml, exp0);
